@@ -19,7 +19,7 @@ NOT_DECIDED = ["that a proper prefix of a pickle never loads successfully (pickl
 ASSUMPTIONS = ["pickle frames are self-delimiting and atomic (a truncated frame raises EOFError/UnpicklingError)",
                "loops are walked for one generic iteration; the loop body is the same for every record"]
 TRUSTED = ["python ast", "pickle framing"]
-MIN = {'CFG-3a': 3, 'CFG-3b': 1, 'CFG-3d': 1, 'AGREE-8': 2}
+MIN = {'CFG-3a': 4, 'CFG-3d': 1, 'AGREE-8': 4}
 
 
 def _is_load(c):
@@ -31,6 +31,20 @@ def _is_dump(c):
 
 
 def run(ctx):
+    """decided by interpreting FitInfoFile on a stream of pickles cut at every position (recfile.py); the path rules below know one way of writing the
+    class and run only when the interpretation does not reach a verdict - then they may only say undecided"""
+    from .. import recfile, roundtrip
+    d1 = recfile.check_write_read(ctx, 'CFG-3a', 'AGREE-8')
+    d2 = recfile.check_truncation(ctx, 'CFG-3')
+    if d1 and d2:
+        return
+    try:
+        syntactic_rules(roundtrip.SuspectCtx(ctx, 'the file protocol was not decided by interpretation and the path rule, which knows one spelling only, reports'))
+    except AnalysisError as e:
+        ctx.undecided('CFG-3a', 'syntactic fall-back', 'sedfitter/fit_info.py', 'structure not recognised: %s' % e)
+
+
+def syntactic_rules(ctx):
     repo = ctx.repo
     FIF = repo.cls('fit_info', 'FitInfoFile')
     write = ctx.fn(repo.func('fit_info', 'FitInfoFile.write'))
